@@ -291,3 +291,68 @@ def k9_bounded_retry(ctx, body, run_site, rule='K9'):
                    % sorted(set(flag_desc)), loc=run_site.loc())
         results.append((head, not unguarded, flag_desc))
     return results
+
+
+# ------------------------------------------------------------------ field writes
+
+def field_writes(body):
+    """Yield (site, how, adt, field, place) for every write access to a struct
+    field in `body`: direct assignment, call destination, or a `&mut` borrow
+    of a place going through the field (potential write by the borrower)."""
+    out = []
+    for site, s in body.stmts():
+        if s['s'] != 'assign':
+            continue
+        lhs, lo = s['lhs'], s.get('lo') or []
+        for i, ow in enumerate(lo):
+            if ow and lhs[i + 1].startswith('.'):
+                # a write through this field if no later Deref of a shared ref... keep simple
+                out.append((site, 'assign', norm(ow), lhs[i + 1][1:], lhs))
+        rv = s['rv']
+        if rv['r'] in ('ref', 'rawptr') and rv.get('mut', rv['r'] == 'rawptr'):
+            p, po = rv['p'], rv.get('po') or []
+            for i, ow in enumerate(po):
+                if ow and p[i + 1].startswith('.'):
+                    out.append((site, 'mutref', norm(ow), p[i + 1][1:], p))
+    for site in body.calls():
+        t = site.term
+        d, do = t['dest'], t.get('desto') or []
+        for i, ow in enumerate(do):
+            if ow and d[i + 1].startswith('.'):
+                out.append((site, 'calldest', norm(ow), d[i + 1][1:], d))
+    return out
+
+
+def writers_of_field(ctx, adt_pat, field=None, candidates=None):
+    """All (body, site, how, field) writing a field of ADT adt_pat in the crate."""
+    res = []
+    needle = adt_pat.split('::')[-1]
+    for raw, line in ctx.facts._lines.items():
+        if needle not in line:
+            continue
+        b = ctx.facts.body_raw(raw)
+        if b.rec.get('derive'):
+            continue
+        for site, how, adt, f, place in field_writes(b):
+            if path_matches(adt, adt_pat) and (field is None or f == field):
+                res.append((b, site, how, f))
+    return res
+
+
+def k3_field_writers(ctx, rule, adt_pat, allowed, fields=None, floor=1, exclude_fields=()):
+    ws = writers_of_field(ctx, adt_pat)
+    n = 0
+    for b, site, how, f in ws:
+        if fields is not None and f not in fields:
+            continue
+        if f in exclude_fields:
+            continue
+        n += 1
+        root = b.nid.split('::{')[0]
+        ok = any(path_matches(root, a) for a in allowed)
+        ctx.check(ok, rule, 'writer:%s.%s<-%s' % (adt_pat.split('::')[-1], f, b.nid),
+                  'field %s.%s is written (%s) in allowed body %s' % (adt_pat, f, how, b.nid),
+                  'field %s.%s is written (%s) in %s, outside the allowlist %s' % (adt_pat, f, how, b.nid, allowed),
+                  loc=site.loc())
+    ctx.floor(rule, 'write sites of %s fields' % adt_pat, n, floor)
+    return ws
